@@ -620,6 +620,12 @@ fn aim_recreate(seed: u64, policy: &str) -> Script {
             let payload = live.payload(20);
             live.push(Step::Append { q: 1, pos: None, batch: vec![payload] });
         }
+        // (sometimes the old incarnation is truncated first: its Truncate entry stays in the log and
+        // must not reach the records of the new incarnation at a replay)
+        if live.rng.chance(50) {
+            let p = live.rng.below(old as u64);
+            live.push(Step::Truncate { q: 0, p });
+        }
         live.push(Step::Delete { q: 0 });
         live.push(Step::Create { q: 0 });
         // leave that block
@@ -629,7 +635,7 @@ fn aim_recreate(seed: u64, policy: &str) -> Script {
         let fresh = old + 1 + live.rng.below(4) as usize;
         let batch: Vec<Payload> = (0..fresh).map(|_| live.payload(9)).collect();
         live.push(Step::Append { q: 0, pos: None, batch });
-        if live.rng.chance(30) {
+        if live.rng.chance(50) {
             live.push(Step::Restart);
         }
     }
